@@ -237,6 +237,9 @@ def default_cells(tier):
         for n in ((100, 260) if tier == "quick" else (100, 180, 260, 400)):
             for v in variants[: 2 if tier == "quick" else 6]:
                 yield {"seed": 22000 + seed, "n": n + seed, "p": 1 + seed % 2, "params": dict(base, **v)}
+    # candidate intervals of more than 256 samples: max_interval_length >= n on 300-460 samples
+    for i in range(8 if tier == "quick" else 32):
+        yield {"seed": 22100 + i, "n": 300 + 23 * (i % 8), "p": 1 + i % 2, "params": dict(base, max_interval_length=1000)}
 
 
 def check_default(case):
